@@ -6,19 +6,21 @@
 (*   asteq  AST of S = AST of the prefix                                        *)
 (*   lenp   Len(S[:Len(S)])   lenst  Len(S . newline . T)                       *)
 (*   complete  S is complete (accepted, root value and its annotation closed)   *)
-(* and TLC validates every record against the four laws.                        *)
+(* and TLC validates every record against the five laws.                        *)
 EXTENDS Integers, Sequences, TLC, Json, TLCExt, IOUtils
 
 TraceLog == ndJsonDeserialize("trace.ndjson")
 VARIABLE l
 TraceInit == l = 1
 
+\* a record with len = -1 says: Check() accepts S but Len(S) failed (a text that is accepted has an end)
+Measured(e)       == e.len >= 0
 NeverExceeds(e)   == e.len <= e.slen
 PrefixSameFate(e) == e.vs = e.vp /\ e.asteq
 Idempotent(e)     == e.lenp = e.len
 BoundaryStays(e)  == e.complete => e.lenst = e.len
 
-Explained(e) == NeverExceeds(e) /\ PrefixSameFate(e) /\ Idempotent(e) /\ BoundaryStays(e)
+Explained(e) == Measured(e) /\ NeverExceeds(e) /\ PrefixSameFate(e) /\ Idempotent(e) /\ BoundaryStays(e)
 
 TraceStep == l <= Len(TraceLog) /\ l' = l + 1 /\ Explained(TraceLog[l])
 TraceBad  == /\ l <= Len(TraceLog) /\ l' = l + 1 /\ ~Explained(TraceLog[l])
